@@ -114,6 +114,34 @@ impl Prop for C15 {
             "adjacency order is not asserted, only duplicate-free set equality".into(),
         ]
     }
+    /// a few large networks (thousands of rows, so that compressed files span many read buffers
+    /// of any plausible size), gzip everywhere, counts scanned from the files
+    fn enumerated(&self, tier: Tier) -> Box<dyn Iterator<Item = C15Case> + '_> {
+        let sizes: Vec<usize> = tier.pick(vec![4_000, 9_000], vec![4_000, 9_000, 30_000, 70_000]);
+        Box::new(sizes.into_iter().enumerate().map(|(k, n)| {
+            // coordinates from a multiplicative sequence: they do not compress well
+            let vertices: Vec<(f32, f32)> = (0..n)
+                .map(|i| (-105.0 + ((i * 7919 + k) % 100_003) as f32 * 1e-5, 39.0 + ((i * 104_729 + 17 * k) % 100_019) as f32 * 1e-5))
+                .collect();
+            let mut edges: Vec<(usize, usize, f64)> = (0..n - 1).map(|i| (i, i + 1, 10.0 + (i % 977) as f64 * 0.25)).collect();
+            edges.extend((0..n).filter(|i| i % 3 != 1).map(|i| (i, (i * 37 + 11) % n, 25.0 + (i % 613) as f64)));
+            let m = edges.len();
+            C15Case {
+                net: NetCase { shape: "large".into(), vertices, edges, metric: false },
+                edge_extra: vec![],
+                edge_order: vec![0, 1, 2, 3],
+                vertex_extra: if k % 2 == 1 { vec![1] } else { vec![] },
+                vertex_order: vec![0, 1, 2],
+                trailing_newline: (true, k % 2 == 0),
+                gzip: (true, true, true),
+                explicit_counts: false,
+                digits: 7,
+                speeds: (0..m).map(|i| 5.0 + (i % 1200) as f64 * 0.1).collect(),
+                headings: (0..m).map(|i| ((i * 7 % 360) as i16, (i * 13 % 360) as i16)).collect(),
+                classes: (0..m).map(|i| (i % 8) as u8).collect(),
+            }
+        }))
+    }
     fn strategy(&self, tier: Tier) -> BoxedStrategy<C15Case> {
         let max_n = tier.pick(16, 60);
         net_any(max_n)
@@ -236,6 +264,7 @@ impl Prop for C15 {
             || vh.first().map(|h| h != "vertex_id").unwrap_or(false);
         o.nontrivial = max_deg >= 5 && odd_file;
         o.label(format!("max-degree-{}", if max_deg >= 5 { "5+".to_string() } else { max_deg.to_string() }));
+        o.label_if(n >= 1000, "large-network");
         o.label_if(c.gzip.0, "gzip-edges");
         o.label_if(c.gzip.1, "gzip-vertices");
         o.label_if(c.explicit_counts, "explicit-counts");
